@@ -402,7 +402,8 @@ def mon_plans(lines, c, want):
                 if l.rec == "own" and l.who != "R" and l.meth == "enter": A[i] = who_id(l.who)
                 if l.meth in T.GUARD and to_clear:
                     SU[i] -= to_clear; to_clear = set()
-                if l.meth != "query" and "plan" in l.f and ("C10" in want or "C08" in want):
+                # (inside load() the plan is discarded before or after the callbacks depending on the saved activity: not checked there)
+                if l.meth != "query" and "plan" in l.f and ("C10" in want or "C08" in want) and call.op != "loadfrom":
                     if l.f["plan"] != pstr(PL[i]):
                         return idx, "control.plan() shows %s, the tasks appended and not yet removed are %s" % (l.f["plan"], pstr(PL[i]))
                 if l.meth in T.PLANCB and l.rec == "own":
@@ -629,7 +630,8 @@ def mon_C16(lines, c):
                     return idx, "method record %s/%s is not followed by that delivery (found: %s)" % (who, meth, nxt.raw if nxt else None)
             elif c["log"] == "on":
                 # non-verbose: a record for a state whose class defines no such callback is allowed only for the react/query family
-                if not (exists and meth in ("preReact", "react", "postReact", "query")):
+                # (and for classes with an injected base, whose inherited empty callback is not the library's own Empty one)
+                if not (exists and (meth in ("preReact", "react", "postReact", "query") or k_inj > 0)):
                     return idx, "method record %s/%s for a class that does not define the callback" % (who, meth)
     return None
 mon_C16.applies = lambda c: True
